@@ -1423,6 +1423,15 @@ def _rows(repo, f, it):
                 if it.func.attr == "items":
                     return [[ast.Tuple(elts=[k, v], ctx=ast.Load())] for k, v in zip(cv.keys, cv.values)]
                 return [[k] for k in cv.keys] if it.func.attr == "keys" else [[v] for v in cv.values]
+    if isinstance(it, ast.Call) and isinstance(it.func, ast.Attribute) and it.func.attr in ("items", "keys", "values") and not it.args and not it.keywords \
+            and isinstance(it.func.value, ast.Dict) and it.func.value.keys and None not in it.func.value.keys:
+        # {"a": x, "b": y}.items() on the spot: constant keys, cheap values
+        d = it.func.value
+        if len(d.keys) <= MAX_ROWS and all(isinstance(k, ast.Constant) for k in d.keys) and all(_cheap(v) or _const(v) for v in d.values) \
+                and len({k.value for k in d.keys}) == len(d.keys):
+            if it.func.attr == "items":
+                return [[ast.Tuple(elts=[k, v], ctx=ast.Load())] for k, v in zip(d.keys, d.values)]
+            return [[k] for k in d.keys] if it.func.attr == "keys" else [[v] for v in d.values]
     if isinstance(it, ast.Call) and isinstance(it.func, ast.Attribute) and it.func.attr in ("items", "keys", "values") and not it.args and isinstance(it.func.value, ast.Name):
         d = _dict_display_local(f, it.func.value.id)
         if d is not None and len(d.keys) <= MAX_ROWS and all(_cheap(v) for v in d.values):
